@@ -6,14 +6,16 @@
    (b) Object behaviours: sequences of D calls on the pool of NObj string objects (history variable h of the calls
        only, closed by the `end' call that destroys every object), by BFS for small D and by simulation. *)
 EXTENDS SimpleStrLattice, Json, IOUtils, SequencesExt
-CONSTANTS D, GA, GL
+CONSTANTS D, GA, GL, GH
 ASSUME IOEnv.FAMILY = "none" \/ ndJsonSerialize(IOEnv.OUT, SetToSeq(RowsOf(IOEnv.FAMILY)))
 
 VARIABLES h, done
 gvars == <<vars, h, done>>
 GS == SeqsUpTo(GA, GL)
 GP == 0..(GL + 1)
-OC(fn, i, j, k, s1, s2, n1, n2) == [op |-> "o", fn |-> fn, i |-> i, j |-> j, k |-> k, s1 |-> s1, s2 |-> s2, n1 |-> n1, n2 |-> n2]
+GSz == { <<p, "">> : p \in GP } \cup { <<0, h>> : h \in GH }     \* sizes of `sub': small positions and symbolic sizes
+OC(fn, i, j, k, s1, s2, n1, n2) == [op |-> "o", fn |-> fn, i |-> i, j |-> j, k |-> k, s1 |-> s1, s2 |-> s2, n1 |-> n1, n2 |-> n2, hg |-> <<"", "">>]
+OCH(fn, i, j, b, n) == [op |-> "o", fn |-> fn, i |-> i, j |-> j, k |-> 0, s1 |-> <<>>, s2 |-> <<>>, n1 |-> b[1], n2 |-> n[1], hg |-> <<b[2], n[2]>>]
 Do(o) == Obj(o, <<>>) /\ h' = Append(h, o)
 GInit == Init /\ h = <<>> /\ done = FALSE
 GStep == /\ Len(h) < D /\ UNCHANGED done
@@ -24,7 +26,7 @@ GStep == /\ Len(h) < D /\ UNCHANGED done
                                            \/ Do(OC("lower", i, j, 0, <<>>, <<>>, 0, 0))
                                            \/ Do(OC("printable", i, j, 0, <<>>, <<>>, 0, 0))
                                            \/ Do(OC("pad", i, j, 0, <<>>, <<>>, 32, 0))
-            \/ \E i \in Objs, j \in Objs, b \in GP, n \in GP : Do(OC("sub", i, j, 0, <<>>, <<>>, b, n))
+            \/ \E i \in Objs, j \in Objs, b \in GSz, n \in GSz : Do(OCH("sub", i, j, b, n))
             \/ \E i \in Objs, s \in GS : Do(OC("appendlit", i, 0, 0, s, <<>>, 0, 0))
             \/ \E i \in Objs, a \in GA, b \in GA : Do(OC("replacech", i, 0, 0, <<>>, <<>>, a, b))
             \/ \E i \in Objs, s \in GS, t \in GS : Do(OC("replacestr", i, 0, 0, s, t, 0, 0))
